@@ -296,6 +296,9 @@ func (p *c18) Init(tier string) {
 			p.cases = append(p.cases, c18case{fi, "arity", 0})
 		}
 		p.cases = append(p.cases, c18case{fi, "history", 0})
+		if f.name == "CONSTANT" {
+			p.cases = append(p.cases, c18case{fi, "contexts", 0})
+		}
 	}
 }
 
@@ -304,6 +307,9 @@ func (p *c18) NumCases() int { return len(p.cases) }
 func (p *c18) Describe(i int) any {
 	c := p.cases[i]
 	f := &p.fns[c.fn]
+	if c.kind == "contexts" {
+		return map[string]any{"function": "CONSTANT / GETVAR", "kind": "the configured constant / variable is returned in every nested context (derived table, CTE, union branches, subqueries, join side, nested FROM) under every combination of the other options"}
+	}
 	if c.kind == "history" {
 		return map[string]any{"function": f.name, "kind": "history independence: a call returns the same value before and after every rejected or failing call of the same function"}
 	}
@@ -512,6 +518,10 @@ func (p *c18) RunCase(i int) *core.CaseResult {
 		p.runHistory(r, f)
 		return r
 	}
+	if c.kind == "contexts" {
+		p.runContexts(r)
+		return r
+	}
 	if c.first < 0 {
 		p.checkCall(r, f, []any{})
 		return r
@@ -557,6 +567,50 @@ func (p *c18) RunCase(i int) *core.CaseResult {
 		}
 	}
 	return r
+}
+
+// runContexts: CONSTANT(k) returns the configured constant (and GETVAR the variable) wherever the
+// call stands and whatever other options the query was given.
+func (p *c18) runContexts(r *core.CaseResult) {
+	ctxs := []struct{ name, sql, want string }{
+		{"top", "SELECT CONSTANT('s') AS v, GETVAR('k') AS g FROM t", `[{"g":7,"v":"x"}]`},
+		{"derived", "SELECT * FROM (SELECT CONSTANT('c') AS v, GETVAR('k') AS g FROM t) AS d", `[{"d":{"g":7,"v":1}}]`},
+		{"cte", "WITH c AS (SELECT CONSTANT('s') AS v, GETVAR('k') AS g FROM t) SELECT * FROM c", `[{"g":7,"v":"x"}]`},
+		{"union", "SELECT CONSTANT('c') AS v FROM t UNION ALL SELECT GETVAR('k') AS v FROM t", `[{"v":1},{"v":7}]`},
+		{"subquery", "SELECT (SELECT CONSTANT('s') AS v, GETVAR('k') AS g FROM items) AS s FROM t", `[{"s":[{"g":7,"v":"x"}]}]`},
+		{"where-subquery", "SELECT id FROM t WHERE 1 IN (SELECT CONSTANT('c') AS v FROM items)", `[{"id":0}]`},
+		{"exists", "SELECT id FROM t WHERE EXISTS (SELECT q FROM items WHERE q >= CONSTANT('c') AND GETVAR('k') = 7)", `[{"id":0}]`},
+		{"join-side", "SELECT `x.v` AS v FROM (SELECT CONSTANT('c') AS v, id FROM t) x JOIN t y ON x.id = y.id", `[{"v":1}]`},
+		{"nested-from", "SELECT CONSTANT('s') AS v, GETVAR('k') AS g FROM m", `[[{"g":7,"v":"x"}]]`},
+		{"cte-in-derived", "SELECT * FROM (WITH c AS (SELECT CONSTANT('c') AS v FROM t) SELECT v FROM c) AS d", `[{"d":{"v":1}}]`},
+	}
+	for m := 0; m < 8; m++ {
+		for _, cx := range ctxs {
+			opts := []genql.QueryOption{genql.WithConstants(map[string]any{"c": 1.0, "s": "x"}), genql.WithVars(map[string]any{"k": 7.0})}
+			name := "constants+vars"
+			if m&1 != 0 {
+				opts = append(opts, genql.CompletedCallback(func() {}))
+				name += "+completed"
+			}
+			if m&2 != 0 {
+				opts = append(opts, genql.UnReportedErrors(func(error) {}))
+				name += "+errors"
+			}
+			if m&4 != 0 {
+				opts = append(opts, genql.IdomaticArrays())
+				name += "+idiomatic"
+			}
+			row := map[string]any{"id": 0.0, "items": []any{map[string]any{"q": 1.0}}}
+			doc := map[string]any{"t": []any{row}, "m": []any{[]any{gq.CloneMap(row)}}}
+			o := gq.Run(doc, cx.sql, opts...)
+			r.Execs++
+			if got := outcome(o); got != cx.want {
+				r.Fail("C18|CONSTANT|context="+cx.name+"|"+name, fmt.Sprintf("%s with options %s returned %s (%v), want %s", cx.sql, name, got, o.Err, cx.want), map[string]any{"sql": cx.sql, "options": name})
+				continue
+			}
+			r.Nontrivial = true
+		}
+	}
 }
 
 // runHistory: built-in functions are pure.  For up to 40 calls on which the function succeeds and
